@@ -172,8 +172,10 @@ func c20Decoders(tag byte, body []byte, kind byte) *hx.Failure {
 			num := uint16(body[2])<<8 | uint16(body[3])
 			want = fmt.Sprintf("dvhe.%02d.%02d", num>>9, (num>>3)&0x3F)
 		}
-		if got := d.DecodeDolbyVisionCodec("hvc1"); got != want {
-			return hx.Failf("desc-dolbyvision-codec", "%s: DecodeDolbyVisionCodec() = %q, want %q", what, got, want)
+		for _, orig := range []string{"hvc1", "", "hev1.2.4.L120.90", "avc1.640028", "avc3", "dvh1.05.06", "dvav.09.05", "mp4a.40.2"} {
+			if got := d.DecodeDolbyVisionCodec(orig); got != want {
+				return hx.Failf("desc-dolbyvision-codec", "%s: DecodeDolbyVisionCodec(%q) = %q, want %q", what, orig, got, want)
+			}
 		}
 	}
 	return nil
